@@ -134,6 +134,21 @@ func TestE2E(t *testing.T) {
 				c.Steps = append(c.Steps, st)
 			case x < 7:
 				c.Steps = append(c.Steps, sim.Step{Op: "unsub", C: ci, Filters: []string{rapid.SampledFrom(e2eFilters).Draw(t, "filter")}})
+			case x < 8 && rapid.IntRange(0, 3).Draw(t, "stalled") == 0:
+				// another client (short keep-alive, connected for this purpose) has stopped reading:
+				// the write to it times out, the other matching sessions still get the message
+				vi := c.Clients
+				c.Clients++
+				node := 0
+				for _, st := range c.Steps {
+					if st.Op == "connect" && st.C == ci {
+						node = st.Node
+					}
+				}
+				payload++
+				c.Steps = append(c.Steps, sim.Step{Op: "connect", C: vi, Node: node, ClientID: fmt.Sprintf("victim%d", vi), KeepAlive: 2},
+					sim.Step{Op: "sub", C: vi, Filters: []string{rapid.SampledFrom([]string{"#", "a/#", "+/+"}).Draw(t, "victimFilter")}, QoS: []int{0}},
+					sim.Step{Op: "stallpub", C: ci, Victim: vi, Topic: rapid.SampledFrom(e2eTopics).Draw(t, "topic"), Payload: fmt.Sprintf("p%d", payload)})
 			default:
 				payload++
 				c.Steps = append(c.Steps, sim.Step{Op: "pub", C: ci, Topic: rapid.SampledFrom(e2eTopics).Draw(t, "topic"), Payload: fmt.Sprintf("p%d", payload), PQoS: byte(rapid.IntRange(0, 1).Draw(t, "pqos"))})
